@@ -108,6 +108,16 @@ Theorem hit_implies_same_question_msg_chase :
 Proof. exact msg_chase_sound. Qed.
 Print Assumptions hit_implies_same_question_msg_chase.
 
+(* the decoded-path chase's self-alias test (ASCII-case-insensitive since fix a4faf69): unless an alias of the
+   chain points back at the question in some spelling — in which case the reply is SERVFAIL and serves nothing —
+   no hop the chase serves was admitted for the question's own name in another spelling *)
+Theorem msg_chase_selfloop_never_serves_other_spelling :
+  forall (K : Type) (K_eqb : K -> K -> bool) (H : bytes -> K) (s : store K) fuel qname qtype qclass cd e,
+    msg_chase_selfloop K K_eqb H s fuel qname qtype qclass cd e = false ->
+    Forall (fun x => fold (q_name (e_q x)) <> fold qname) (msg_chase K K_eqb H s fuel qtype qclass cd e).
+Proof. exact msg_chase_no_selfloop. Qed.
+Print Assumptions msg_chase_selfloop_never_serves_other_spelling.
+
 (* the chase's gates: every composed segment is a plain NOERROR body (no authority / additional
    records, re-encodable answer types only); all but the last lack the requested type, the last has it *)
 Theorem chase_composes_plain_segments_only :
